@@ -624,7 +624,7 @@ fn part3(tier: Tier, deadline: &Deadline) -> Stats {
             };
             st.evals += 1;
             let reads = static_reads(&prog);
-            let so = run_static(&tc, 45, 1, 5_000);
+            let so = run_static_opt(&tc, 45, 1, 5_000, true);
             let replay = |obs: String| json!({"kind": "static", "text": text, "signals": sigs_json(&sigs), "expected": [if reads.is_empty() { "try_iter_static succeeds (the program reads no outputs)".to_string() } else { format!("try_iter_static fails (the program reads {reads:?})") }], "observed": [obs]});
             match (&so, reads.is_empty()) {
                 (StaticObs::NotStatic(_), false) => {
@@ -651,9 +651,11 @@ fn part3(tier: Tier, deadline: &Deadline) -> Stats {
                 (StaticObs::Rows(..), true) => {}
             }
             let StaticObs::Rows(rows, ended) = so else { return };
-            if !ended {
-                st.out_of_scope += 1;
-                return;
+            // a program that does not end within 45 items (a failing while condition repeats its
+            // error for ever): the first 45 items are compared
+            let cap = if ended { usize::MAX } else { 45 };
+            if rows.iter().any(|r| r.is_err()) {
+                st.witness("static_program_with_an_error_item_compared_with_dynamic_runs");
             }
             st.nontrivial += 1;
             st.witness("static_program_compared_with_dynamic_runs");
@@ -673,6 +675,7 @@ fn part3(tier: Tier, deadline: &Deadline) -> Stats {
                     let script = vec![Step::Ans(answer)];
                     let mut opts = RunOpts::new(46);
                     opts.repeat_last = true;
+                    opts.continue_after_error = true;
                     let o = run_loaded(&tc, &sigs, true, &script, &opts);
                     st.steps += o.items.len() as u64;
                     let dynrows: Vec<Result<StaticRow, String>> = o
@@ -685,7 +688,7 @@ fn part3(tier: Tier, deadline: &Deadline) -> Stats {
                         })
                         .collect();
                     // mid-clock rows have no outputs in a dynamic run and no expected entries in a static one
-                    let same = dynrows.len() == rows.len() && dynrows.iter().zip(rows.iter()).all(|(d, s)| match (d, s) {
+                    let same = (dynrows.len() == rows.len() || (cap == 45 && dynrows.len() >= 45)) && dynrows.iter().zip(rows.iter()).take(cap).all(|(d, s)| match (d, s) {
                         (Ok(d), Ok(s)) => d == s,
                         (Err(_), Err(_)) => true,
                         _ => false,
@@ -710,6 +713,9 @@ fn part3(tier: Tier, deadline: &Deadline) -> Stats {
             reversed.reverse();
             let devs = [Step::Fault(31), Step::Ans(reversed), Step::Ans(full[..1].to_vec())];
             for j in 1..=rows.len().min(4) {
+                if !ended || rows.iter().any(|r| r.is_err()) {
+                    break;
+                }
                 for (di, dev) in devs.iter().enumerate() {
                     let mut script: Vec<Step> = vec![Step::Ans(full.clone()); j];
                     script.push(dev.clone());
@@ -792,7 +798,7 @@ pub fn run(tier: Tier, seed: u64) -> i32 {
             "interleaving states are merged on the position vector; the thorough tier re-explores without merging".into(),
             "values drawn by random are outside the property; the seed is pinned through hook H1".into(),
         ],
-        required_witnesses: vec!["non_identity_hash_map_order", "binding_error_compared", "real_hash_map_order_varies_under_the_seam", "non_identity_order_in_the_dig_loader", "step_while_another_iterator_is_mid_run", "iterator_restarted_mid_run", "program_reading_outputs_is_not_static", "static_program_compared_with_dynamic_runs", "static_iteration_past_an_error_item", "row_spoilt_by_a_misbehaving_driver_then_carried_on"],
+        required_witnesses: vec!["non_identity_hash_map_order", "binding_error_compared", "real_hash_map_order_varies_under_the_seam", "non_identity_order_in_the_dig_loader", "step_while_another_iterator_is_mid_run", "iterator_restarted_mid_run", "program_reading_outputs_is_not_static", "static_program_compared_with_dynamic_runs", "static_iteration_past_an_error_item", "row_spoilt_by_a_misbehaving_driver_then_carried_on", "static_program_with_an_error_item_compared_with_dynamic_runs"],
         exhaustive_note: "all orders, all interleavings (as states and schedule edges), all programs within the bounds".into(),
         e1: true,
     };
